@@ -9,7 +9,7 @@ lemma is itself a violation and the sites that rest on it are listed with it.
 import re
 from ..core import ordrules, pan, terms, tab
 from ..core.facts import callee_name, norm_name
-from ..core.prog import canon, short, Prog
+from ..core.prog import canon, short, alloc_site, Prog
 
 TESTDATA = "data_row_iterator::DataRowIteratorTestData"
 
@@ -289,7 +289,16 @@ class Lemmas:
                 good = False
         ok &= self._ob("ROWWIDTH", "row-Ok-only-with-header-width", good, "Ok(data) dominated by signal_index == self.signals.len()", "parse_data_row can return Ok without the column counter being equal to the header width")
         # each push advances the counter by the width of the pushed entry
-        pushes = [(bb, t) for bb, t in pdr.calls() if callee_name(t)[0] == "std::vec::Vec::push" and canon(sl.call_args(bb)[0]).startswith("Vec::with_capacity")]
+        # the row vector is the one that is returned in Ok(..) (identified by its allocation site, not by how it is pre-sized)
+        data_sites = set()
+        for rb_ in okrets:
+            for i_, st_ in enumerate(pdr.blocks[rb_]["stmts"]):
+                if st_["s"] == "assign" and st_["lhs"]["l"] == 0 and not st_["lhs"]["p"] and st_["rv"]["r"] == "agg" and st_["rv"].get("variant") == "Ok":
+                    r_ = terms.strip(P.resolve(pdr, sl.rvalue(st_["rv"], rb_, i_)))
+                    if r_[0] == "agg" and r_[3]:
+                        data_sites.add(alloc_site(r_[3][0][1]))
+        data_sites.discard(None)
+        pushes = [(bb, t) for bb, t in pdr.calls() if callee_name(t)[0] == "std::vec::Vec::push" and alloc_site(P.resolve(pdr, sl.call_args(bb)[0])) in data_sites]
         self.chk.floor("PAIR", "row pushes", len(pushes), 6)
         for bb, t in pushes:
             val = sl.call_args(bb)[1]
@@ -320,7 +329,7 @@ class Lemmas:
             for pi in tab.paths(P, pdr, start=heads[0]):
                 if pi.back is None:
                     continue
-                np_ = sum(1 for bb, nm, a in pi.calls() if nm == "std::vec::Vec::push" and canon(a[0]).startswith("Vec::with_capacity"))
+                np_ = sum(1 for bb, nm, a in pi.calls() if nm == "std::vec::Vec::push" and alloc_site(a[0]) in data_sites)
                 ni = sum(1 for bb in pi.path if bb in incb)
                 shapes.add((np_, ni))
             # the loop is left (other than by `return Err`) only on an unconsumed Eol / Eof: no token is swallowed by an exit
@@ -1145,7 +1154,7 @@ def r_rowwidth(P, L, s, d):
                 good = rets == {"phi(Option::None{} | Option::Some{0: elem(Iterator::rev(Iterator::enumerate([T]::iter(Option::expect([T]::last(self.cache), '_').entries)))).0})"}
             return (good and L.need("STK"), "index is the enumerate index found in last(cache).entries, and the row popped next is that same row (LIFO)")
     if fn == TESTDATA + "::expand_c" and m:
-        if re.fullmatch(r"some!\(Iterator::next\(IntoIterator::into_iter\(Iterator::collect\(Iterator::filter_map\(Iterator::enumerate\(\[T\]::iter\(" + row + r"\.entries\)\), closure\(\{closure#0\}\)\)\)\)\)\)", idx):
+        if re.fullmatch(r"some!\(Iterator::next\((?:IntoIterator::into_iter|\[T\]::iter)\(Iterator::collect\(Iterator::filter_map\(Iterator::enumerate\(\[T\]::iter\(" + row + r"\.entries\)\), closure\(\{closure#0\}\)\)\)\)\)\)", idx):
             cl = P.body(fn + "::{closure#0}")
             good = False
             if cl is not None:
